@@ -1,7 +1,10 @@
 """C36 — attribute history reports exactly the net change since load: History.from_scalar_attribute / from_object_attribute
-under proof (documented conventions), mutation sequences on mapped attributes as the bounded complement."""
+(documented conventions) and _ScalarAttributeImpl.set / delete (the value before the FIRST change since the last flush is what
+committed_state remembers; no other attribute is touched) under proof; mutation sequences on mapped attributes as the bounded
+complement."""
 import importlib
 import contracts.history  # noqa: F401
+import contracts.attr_scalar  # noqa: F401
 from pyvc.contract import FUNCS
 from vlib.proof import run_proofs
 
@@ -15,5 +18,6 @@ def run(run, tier, seed, args):
         importlib.import_module("checks.C36_bounded").bounded(run, tier, seed)
     run.assumptions += [
         "attribute.is_equal is a pure function; History(...) is the 3-tuple of its arguments",
-        "under proof: from_scalar_attribute, from_object_attribute; from_collection, the impls' set/delete/append/remove and InstanceState._modified_event are in the bounded complement only",
+        "under proof: History.from_scalar_attribute, from_object_attribute; _ScalarAttributeImpl.set / delete, which use InstanceState._modified_event through a summary contract (first write wins, other keys untouched) -- the clauses that function's own proof establishes under C48 in the thorough tier; `set` / `remove` listeners and AttributeImpl.get are abstract callees that may raise and do not touch the state",
+        "from_collection, the object / collection impls' set/delete/append/remove are in the bounded complement only",
     ]
